@@ -69,8 +69,8 @@ def run(ctx, chk):
     _FAILSIG.clear()
     _FAILSIG.update(failsig)
 
-    def analyse_paths(fname, inline=()):
-        X = P.Executor(prog, eff, inline=inline, arith_events=True, loop_bound=1)
+    def analyse_paths(fname, inline=(), loop_bound=1):
+        X = P.Executor(prog, eff, inline=inline, arith_events=True, loop_bound=loop_bound)
         ps = X.run(fname)
         res = {}
         root = prog.fn(fname)
@@ -105,7 +105,20 @@ def run(ctx, chk):
             continue
         sc = O.static_callees(prog, eff, g)
         if sc & nontrivial_fns:
-            for key, v in analyse_paths(g, inline=sc).items():
+            got = analyse_paths(g, inline=sc)
+            # an instruction of a helper that no complete path reaches with one trip round each loop sits in a loop whose trip
+            # count the caller fixes (`for (i = 1; i <= width; i++)` with width a constant of the call): unroll further
+            missing = [(f_.name, i_.id) for f_, i_ in insts if f_.name in sc and classes.get((f_.name, i_.id)) is None and (f_.name, i_.id) not in got
+                       and (f_.name, i_.id) not in pr]
+            if missing:
+                try:
+                    deeper = analyse_paths(g, inline=sc, loop_bound=16)
+                    for key, v in deeper.items():
+                        if key in missing:
+                            got.setdefault(key, []).extend(v)
+                except (AnalysisBroken, P.PathCapExceeded):
+                    pass
+            for key, v in got.items():
                 pr.setdefault(key, []).extend(v)
             in_context |= sc | {g}
     for fn in sorted(nontrivial_fns - in_context):
@@ -154,7 +167,7 @@ def run(ctx, chk):
     # anchors
     chk.floor("C20.anchors", "guarded products (idiom 1)", counts.get("1-guard-call", 0), 6)
     chk.floor("C20.anchors", "subtractive guards (idiom 3)", counts.get("3-subtractive-guard", 0), 1)
-    chk.floor("C20.anchors", "window terms (idiom 8)", counts.get("8-window", 0), 20)
+    chk.floor("C20.anchors", "window terms (idiom 8)", counts.get("8-window", 0), 12)
     chk.floor("C20.anchors", "post-check / saturation (idiom 4)", counts.get("4-post-check", 0), 1)
     for k, v in sorted(counts.items()):
         chk.ob("C20.anchors", "idiom %s: %d instruction(s)" % (k, v), True, "src/", key="count:" + k, nontrivial=False)
@@ -176,6 +189,14 @@ def run(ctx, chk):
     for k, pa in enumerate(cache.get(ss.name, inline_static=True)):
         r = pa.ret
         ok = is_const(r) or (isinstance(r, tuple) and r[0] == "call" and r[1] in ("_cbor_safe_signaling_add", "_cbor_encoded_header_size"))
+        if not ok and isinstance(r, tuple) and r[0] == "ld":
+            # an entry of a constant table (leaf sizes indexed by the width enumerator) is a constant, whichever entry it is
+            b_ = P.ptr_key(r[1])[0] if isinstance(r[1], tuple) else None
+            while isinstance(b_, tuple) and b_[0] in ("idx", "p", "cast"):
+                b_ = b_[1] if b_[0] != "cast" else b_[3]
+            if isinstance(b_, tuple) and b_[0] == "g":
+                gl_ = prog.global_for(ss, b_[1]) or prog.globals.get(b_[1])
+                ok = bool(gl_ and gl_.get("constant"))
         chk.ob("C20.signalling", "cbor_serialized_size path %d returns a constant, a header size or a signalling sum" % k, ok,
                "%s:%d" % (ss.file, ss.line), fn=ss.name, key="ssret:%d" % k,
                detail="" if ok else "returns %s: a size combined outside _cbor_safe_signaling_add loses the overflow signal (0)" % DR.fmt_term(r),
@@ -444,6 +465,28 @@ def classify_event(prog, pa, idx, e, root=None, failsig=()):
         if pe.kind == "call" and pe.callee == ("_cbor_safe_to_multiply" if op == "mul" else "_cbor_safe_to_add") and \
                 {pe.args[0], pe.args[1]} == {a, b} and facts_before.get(pe.res) is True:
             return True, "1-guard-call", ""
+    # 1 (deferred use): the product is formed before the guard is asked, but nothing looks at it until the guard has said yes (an
+    # unsigned product that wrapped and is then thrown away harms nobody)
+    if op == "mul":
+        prod = e.res if getattr(e, "res", None) is not None else None
+        cands = (("op", "mul", "i64", a, b), ("op", "mul", "i64", b, a))
+
+        def mentions(t):
+            if t in cands:
+                return True
+            return isinstance(t, tuple) and any(mentions(x) for x in t if isinstance(x, tuple))
+        for j in range(idx + 1, len(pa.events)):
+            pe = pa.events[j]
+            if pe.kind == "call" and pe.callee == "_cbor_safe_to_multiply" and {pe.args[0], pe.args[1]} == {a, b}:
+                verdict = truth_all.get(pe.res)
+                before = pa.events[idx + 1:j]
+                after = pa.events[j + 1:]
+                used_before = any(mentions(x.args) for x in before if x.kind in ("call", "store", "memcpy", "arith"))
+                used_after = any(mentions(x.args) for x in after if x.kind in ("call", "store", "memcpy", "arith")) or mentions(pa.ret)
+                early_fact = any(mentions(t_) for t_, _tr, _i in pa.facts[:pe.nfacts])
+                if not used_before and not early_fact and (verdict is True or (verdict is False and not used_after)):
+                    return True, "1-guard-call", "product formed before the guard, first looked at after it"
+                break
     # 5: small constant under a successful allocation
     if op in ("mul", "shl") and (is_const(a) or is_const(b)):
         c, v = (a, b) if is_const(a) else (b, a)
